@@ -490,7 +490,8 @@ impl Hook for Driver {
             }
         }
         if g.steps > g.max_steps {
-            let why = format!("step budget {} exhausted (livelock suspected)", g.max_steps);
+            let dump: Vec<String> = g.threads.iter().enumerate().map(|(i, t)| format!("{i}:{}:{:?}:tok={}", t.role, t.state, t.token)).collect();
+            let why = format!("step budget {} exhausted (livelock suspected) threads={dump:?}", g.max_steps);
             Self::fail(&mut g, why);
             self.cv.notify_all();
             return;
